@@ -119,8 +119,13 @@ class Design:
         self.objs.append({"s": 0, "suf": "", "lo": 0, "hi": 0, "d": 0, "t": ty, "h": at, "val": val, "form": form})
         return len(self.objs)
 
-    def conn(self, a, b, at):
+    def conn(self, a, b, at, grp=None):
+        """grp = (group id, (comp, interface name) of side a, (comp, interface name) of side b): the connection
+        is one of the port pairs of ONE interface-level statement connect( ifc_a, ifc_b ) (connected by name);
+        the specification sees the signal-level connections, the source text the interface-level statement."""
         self.stmts.append({"k": "c", "a": a, "b": b, "at": at})
+        if grp:
+            self.stmts[-1]["grp"] = grp
 
     def blk(self, kind, at, wr, rd=(), calls=(), shape=None):
         """@update ('u') / `//=` lambda ('l') / @update_ff ('f') block or @s.func helper ('h') of
@@ -184,7 +189,7 @@ class Design:
             "sigs": [{"h": s["h"], "k": s["k"], "w": TYPES[s["ty"]][1]} for s in self.sigs],
             "objs": [{"s": o["s"], "lo": o["lo"], "hi": o["hi"], "d": o["d"], "t": o["t"], "h": o["h"]}
                      for o in self.objs],
-            "stmts": [dict(st) if st["k"] == "c" else
+            "stmts": [{"k": "c", "a": st["a"], "b": st["b"], "at": st["at"]} if st["k"] == "c" else
                       {"k": st["k"], "at": st["at"], "wr": st["wr"], "rd": st["rd"],
                        "calls": [c + 1 for c in st.get("calls", [])]} for st in self.stmts],
         }
@@ -319,6 +324,7 @@ def gen_variant(D, perm, flips, junkseed, cname):
     order = sorted(range(1, len(D.comps) + 1), key=lambda c: -len(D.comp_path(c)))
     gidx = 0
     gmap = {}
+    done_groups = set()
     for si, st in enumerate(D.stmts):
         if st["k"] != "c":
             for wi, _ in enumerate(st["wr"]):
@@ -327,10 +333,39 @@ def gen_variant(D, perm, flips, junkseed, cname):
     for c in order:
         L = ["class %s_%d( Component ):" % (cname, c), "  def construct( s ):"]
         B = []
+        ifcs = {}
         for i, sg in enumerate(D.sigs):
             if sg["h"] == c:
+                if "." in sg["name"]:
+                    # a port of an interface: "ifc.lane[1][0]" (all elements of a port list have one kind / type)
+                    pre, port = sg["name"].split(".", 1)
+                    base = port.split("[", 1)[0]
+                    idx = tuple(int(x) for x in re.findall(r"\[(\d+)\]", port))
+                    e = ifcs.setdefault(pre, {}).setdefault(base, {"k": sg["k"], "ty": sg["ty"], "idx": []})
+                    assert (e["k"], e["ty"]) == (sg["k"], sg["ty"]) and "." not in port
+                    e["idx"].append(idx)
+                    continue
                 B += _junk(R)
                 B.append("s.%s = %s( %s )" % (sg["name"], KINDCLS[sg["k"]], TYPES[sg["ty"]][0]))
+        for pre in sorted(ifcs):
+            icls = "%s_%d_%s" % (cname, c, pre)
+            IL = ["class %s( Interface ):" % icls, "  def construct( s ):"]
+            for base in sorted(ifcs[pre]):
+                e = ifcs[pre][base]
+                nd = len(e["idx"][0])
+                dims = [1 + max(ix[d] for ix in e["idx"]) for d in range(nd)]
+                assert len(e["idx"]) == len(set(e["idx"])) and all(len(ix) == nd for ix in e["idx"])
+                n = 1
+                for d_ in dims:
+                    n *= d_
+                assert n == len(e["idx"]), "port list %s.%s is not a full grid" % (pre, base)
+                txt = "%s( %s )" % (KINDCLS[e["k"]], TYPES[e["ty"]][0])
+                for d_ in reversed(dims):
+                    txt = "[ %s for _ in range(%d) ]" % (txt, d_)
+                IL.append("    s.%s = %s" % (base, txt))
+            out += IL + [""]
+            B += _junk(R)
+            B.append("s.%s = %s()" % (pre, icls))
         for ch in range(1, len(D.comps) + 1):
             if D.comps[ch - 1][1] == c:
                 B += _junk(R)
@@ -340,7 +375,17 @@ def gen_variant(D, perm, flips, junkseed, cname):
             if st["at"] != c:
                 continue
             B += _junk(R)
-            if st["k"] == "c":
+            if st["k"] == "c" and st.get("grp"):
+                gid, ga, gb = st["grp"]
+                if (c, gid) in done_groups:
+                    continue            # the interface-level statement has been written for an earlier pair
+                done_groups.add((c, gid))
+                pre = D.comp_path(c)
+                names = [".".join(["s"] + D.comp_path(gc)[len(pre):] + [gn]) for (gc, gn) in (ga, gb)]
+                if flip[si]:
+                    names.reverse()
+                B.append("connect( %s, %s )" % tuple(names) if (junkseed + si) % 2 else "%s //= %s" % tuple(names))
+            elif st["k"] == "c":
                 a, b = (st["b"], st["a"]) if flip[si] else (st["a"], st["b"])
                 ea, eb = D.rel_name(a, c), D.rel_name(b, c)
                 if (junkseed + si) % 3 == 1:
@@ -452,6 +497,13 @@ def _nm(x):
     return repr(x)
 
 
+def _attr(x, name):
+    """getattr along a declared name: "o", "pi.en", "pi.lane[1][0]" (ports of interfaces / port lists)"""
+    for tok in re.findall(r"\w+|\[\d+\]", name):
+        x = x[int(tok[1:-1])] if tok[0] == "[" else getattr(x, tok)
+    return x
+
+
 def _read(D, top, o):
     ob = D.objs[o - 1]
     if ob["s"] == 0:
@@ -460,7 +512,7 @@ def _read(D, top, o):
     x = top
     for nm in D.comp_path(sg["h"]):
         x = getattr(x, nm)
-    x = getattr(x, sg["name"])
+    x = _attr(x, sg["name"])
     for tok in re.findall(r"\.\w+|\[\d+:\d+\]", ob["suf"]):
         if tok[0] == ".":
             x = getattr(x, tok[1:])
@@ -481,7 +533,7 @@ def _simulate(D, mod, top, R, ncyc, members):
         for i in range(len(mod.G)):
             mod.G[i] = R.randrange(256)
         for sg in tins:
-            port = getattr(top, sg["name"])
+            port = _attr(top, sg["name"])
             n = TYPES[sg["ty"]][1]
             v = R.randrange(1 << n)
             if sg["ty"] == "St":
@@ -1022,6 +1074,50 @@ def fixed_shapes():
     D.blk("u", 1, [(D.obj(c, "[0:4]"), "@=")])
     D.blk("u", 1, [(D.obj(c, "[2:6]"), "@=")])
     out.append(D)
+    return out
+
+
+def ifc_shapes():
+    """Interfaces connected BY NAME (`connect( s.c1.ifc, s.c2.ifc )`, no custom connect method): the statement
+    stands for one signal connection per port pair, also for ports kept in (nested) lists.  The specification
+    sees the signal-level connections; the source holds the one interface-level statement.  Shapes: scalar
+    ports, 1-D, 2-D and 3-D port lists, both directions in one interface; producer and consumer are siblings
+    (connected in the parent) or parent and child.  Added after seeded change C08-C (the recursion over nested
+    port lists replaced by a flat zip: the ports of a list of lists were silently left unconnected)."""
+    out = []
+    shapes = {"scalar": {"en": ()}, "l1": {"en": (), "tag": (2,)}, "l2": {"en": (), "lane": (2, 2)},
+              "l2x3": {"lane": (2, 3), "tag": (3,)}, "l3": {"cube": (2, 1, 2)}, "mixed": {"en": (), "tag": (2,), "lane": (2, 2)}}
+    for sname, ports in shapes.items():
+        for place in ("siblings", "parent-child", "child-parent"):
+            for ty in ("b4", "St"):
+                if ty == "St" and sname not in ("scalar", "l2"):
+                    continue
+                D = Design(HIER2, "ifc/%s/%s/%s" % (sname, place, ty))
+                # producer side (ports written by an update block of the producer / top-level inputs), consumer side
+                if place == "siblings":
+                    pc, cc, at = 2, 3, 1
+                    pk, ck = "out", "in"
+                elif place == "parent-child":       # the parent's in-ports feed the child's in-ports
+                    pc, cc, at = 1, 2, 1
+                    pk, ck = "in", "in"
+                else:                               # the child's out-ports feed the parent's out-ports
+                    pc, cc, at = 2, 1, 1
+                    pk, ck = "out", "out"
+                wr = []
+                for base, dims in sorted(ports.items()):
+                    idxs = [()]
+                    for d_ in dims:
+                        idxs = [ix + (j,) for ix in idxs for j in range(d_)]
+                    for ix in idxs:
+                        nm = base + "".join("[%d]" % j for j in ix)
+                        a = D.obj(D.sig(pc, "pi." + nm, pk, ty))
+                        b = D.obj(D.sig(cc, "ci." + nm, ck, ty))
+                        D.conn(a, b, at, grp=(1, (pc, "pi"), (cc, "ci")))
+                        if pk == "out":
+                            wr.append((a, "@="))
+                if wr:
+                    D.blk("u", pc, wr)
+                out.append(D)
     return out
 
 
